@@ -67,6 +67,7 @@ RULES = [
 def run(ctx, rep):
     fx = ctx.facts('default')
     check_validation(fx, rep)
+    check_container_rules(fx, rep)
     check_header(fx, rep)
     check_determinism(fx, rep)
     rep.assume('the interpreter only executes EOF code that passed validate_eof (C25 states the same assumption)')
@@ -222,6 +223,82 @@ def check_rjumpv_table(rep, f, rows):
             rep.violation('R1-validation-covers-runtime', key, 'RJUMPV table loop (%s) %s: entries outside it are never %s' % (name, bad, 'marked' if name.startswith('mark') else 'validated as jump targets'), f.where())
         else:
             rep.ok('R1-validation-covers-runtime', key, 'covers the whole table for max_index 0..=255')
+
+
+def check_container_rules(fx, rep):
+    """R1c: assumptions of EOFCREATE about the sub container it instantiates.  The handler decodes
+    it with `expect` and panics when its data section is truncated, so (a) validate_eof_codes accepts
+    a container used as EOFCREATE target (code type ReturnContract) only with is_data_filled, and
+    (b) validate_eof_inner decodes every sub container and validates it with the code type the
+    parent's code gave it (a failed decode is a validation failure)."""
+    f = fx.fns.get(AN + 'validate_eof_codes')
+    g = fx.fns.get(AN + 'validate_eof_inner')
+    if f is None or g is None:
+        rep.undecided('R1-validation-covers-runtime', 'containers', 'validate_eof_codes / validate_eof_inner not found')
+        return
+    rep.fn(f)
+    rep.fn(g)
+    try:
+        rs = Symx(fx, max_paths=20000, snapshot_refs=True, max_depth=1).run(f)
+    except Budget:
+        rep.undecided('R1-validation-covers-runtime', 'DataNotFilled', 'path budget', f.where())
+        rs = None
+    if rs is not None:
+        acc = [r for r in rs if not r.cut and r.ret[0] == 'agg' and r.ret[2] == 'Ok']
+        rej = [r for r in rs if not r.cut and r.ret[0] == 'agg' and r.ret[2] == 'Err' and 'DataNotFilled' in render(r.ret)]
+
+        def facts_of(r):
+            filled = kind = None
+            for (sv, lit, _f, _b) in r.lits:
+                t = render(sv)
+                if 'is_data_filled' in t:
+                    filled = lit_truth(lit)
+                if ('this_container_code_type' in t or 'eq(' in t) and 'CodeType::ReturnContract' in t:
+                    kind = lit_truth(lit)       # "is an EOFCREATE target"
+            return filled, kind
+        if not acc:
+            rep.undecided('R1-validation-covers-runtime', 'DataNotFilled', 'no accepting path of validate_eof_codes', f.where())
+        elif not rej or not all(facts_of(r)[0] is False for r in rej):
+            rep.violation('R1-validation-covers-runtime', 'DataNotFilled', 'validate_eof_codes never rejects a container with a truncated data section: EOFCREATE panics on such a sub container', f.where())
+        elif any(facts_of(r)[0] is not True and facts_of(r)[1] is not False for r in acc):
+            rep.violation('R1-validation-covers-runtime', 'DataNotFilled:accepts-unchecked', 'validate_eof_codes accepts a container on a path that tests neither its code type nor is_data_filled', f.where())
+        else:
+            rep.ok('R1-validation-covers-runtime', 'DataNotFilled', '%d accepting paths: not an EOFCREATE target, or data filled' % len(acc))
+    # (b) sub containers are decoded and pushed with their code type; decode errors propagate
+    from cfg import Origins
+    og = Origins(g, fx)
+    dec = [(bi, t) for bi, t in g.calls() if (t.target_fn or '').endswith('eof::Eof::decode')]
+    val = [(bi, t) for bi, t in g.calls() if (t.target_fn or '') == AN + 'validate_eof_codes']
+    ok_dec = False
+    for bi, t in dec:
+        src = og.of_operand(t.args[0])
+        # the decoded bytes come from iterating container_section (zip with the tracker's code types)
+        def from_containers(oo, depth=0):
+            for o in oo:
+                if 'container_section' in ''.join(o.path):
+                    return True
+                if o.root[0] == 'call' and depth < 8:
+                    tt = g.blocks[o.root[2]].term
+                    if any(from_containers(og.of_operand(a), depth + 1) for a in tt.args[:2]):
+                        return True
+            return False
+        if from_containers(src):
+            ok_dec = True
+    try:
+        gs = Symx(fx, max_paths=20000, snapshot_refs=True, max_depth=1).run(g)
+    except Budget:
+        gs = []
+    # a failed decode (Result discriminant, directly or through `?`) must end in an Err return
+    swallowed = [r for r in gs if not (not r.cut and r.ret[0] == 'agg' and r.ret[2] == 'Err') and
+                 any(render(l[0]).startswith(('discr(branch(decode(', 'discr(decode(')) and l[1] != ('eq', 0) for l in r.lits)]
+    if not dec or not ok_dec:
+        rep.violation('R1-validation-covers-runtime', 'subcontainers-decoded', 'validate_eof_inner does not decode the sub containers of a container: EOFCREATE `expect`s a decodable sub container', g.where())
+    elif swallowed:
+        rep.violation('R1-validation-covers-runtime', 'subcontainers-decoded', 'validate_eof_inner accepts although decoding a sub container failed', g.where())
+    elif len(val) < 2:
+        rep.violation('R1-validation-covers-runtime', 'subcontainers-validated', 'validate_eof_inner does not validate containers popped from its work stack', g.where())
+    else:
+        rep.ok('R1-validation-covers-runtime', 'subcontainers-decoded', 'every sub container is decoded (errors propagate) and validated with its code type')
 
 
 def check_header(fx, rep):
